@@ -495,6 +495,12 @@ Proof.
   constructor; norm2; rw_fields; auto.
 Qed.
 
+Lemma inv2_abandon s : Inv2 s -> Inv2 (abandon s).
+Proof.
+  intros H2. open2 H2. match goal with |- Inv2 ?e => fields e s' end.
+  constructor; norm2; rw_fields; auto.
+Qed.
+
 Lemma incl_remove_id t l : incl (remove_id t l) l.
 Proof. intros x Hx. apply In_remove_id in Hx. tauto. Qed.
 
@@ -549,19 +555,19 @@ Proof.
     + apply inv2_submit; [exact H2|].
       match goal with Hc : chunks _ _ = _ |- _ => pose proof Hc as Hchunks end.
       eapply chunks_nonempty. rewrite Hchunks. left. reflexivity.
-  - intros s r [H1 H2] Hph. split; [revert H1; frame1|]. apply inv2_set_flags; [exact H2 | left; apply rem_of_start; auto | exact I].
-  - intros s [H1 H2] Hph. split; [revert H1; unfold end_start; frame1|]. unfold end_start.
-    apply inv2_set_flags; [exact H2 | left; apply rem_of_start; exact Hph | exact I].
+  - intros s r [H1 H2] Hph _. split; [revert H1; frame1|]. apply inv2_set_flags; [exact H2 | left; apply rem_of_start; auto | exact I].
+  - intros s [H1 H2] Hph _. split; [revert H1; unfold end_start; frame1|]. unfold end_start.
+    apply inv2_set_flags; [exact H2 | left; apply rem_of_start; right; exact Hph | exact I].
   - intros s t o [H1 H2]. split; [apply cb_start_frame1; exact H1 | apply inv2_cb_start; exact H2].
   - intros s t k [H1 H2] Hk Hin Hc. split; [revert H1; frame1 | apply inv2_cb_close; assumption].
   - intros s t k [H1 H2] Hk Hin Hc. split; [revert H1; frame1 | eapply inv2_cb_stale; eassumption].
-  - intros s [H1 H2] _. split; [revert H1; frame1|]. apply inv2_set_flags; [exact H2 | right; reflexivity |].
+  - intros s [H1 H2] _ _. split; [revert H1; frame1|]. apply inv2_set_flags; [exact H2 | right; reflexivity |].
     destruct (phase s); auto.
   - intros s [H1 H2]. split; [revert H1; frame1|]. unfold set_want.
     apply inv2_set_out; [exact H2 | apply incl_refl | apply incl_refl |].
     intros r Hr. exists r. split; [exact Hr | apply incl_refl].
-  - intros s [H1 H2] _. split; [revert H1; frame1|]. apply inv2_finalize; [exact H2 | left; auto].
-  - intros s r [H1 H2] Hph. split; [revert H1; frame1|].
+  - intros s [H1 H2] _. split; [revert H1; frame1|]. apply inv2_abandon. apply inv2_finalize; [exact H2 | left; auto].
+  - intros s r [H1 H2] Hph. split; [revert H1; frame1|]. apply inv2_abandon.
     apply inv2_set_out; [exact H2 | apply incl_refl | apply incl_refl | discriminate].
   - intros s j [H1 H2] _ Ht _. split; [revert H1; frame1 | apply inv2_timeout; assumption].
   - intros s v r [H1 H2] _. split; [revert H1; frame1|]. apply inv2_deliver.
@@ -583,3 +589,26 @@ Proof.
     apply inv2_set_out; [exact H2 | apply incl_refl | apply incl_refl | discriminate].
   - intros s [[[Hn _] _ _ _ _] _]. exact Hn.
 Qed.
+
+(* ---------------- the same facts as stand-alone lemmas (used by the later invariants) ---------------- *)
+Lemma inv12_dispatch s b fo s' r : Inv12 s -> dispatch_shape s b fo s' r -> Inv12 s'.
+Proof.
+  intros [H1 H2] Hsh. split; [eapply dispatch_shape_inv1; eassumption|].
+  inversion Hsh; subst; try exact H2.
+  - apply inv2_submit; [exact H2|]. destruct H1 as [_ _ _ Hrne _].
+    match goal with Hr : ready s = _ |- _ => rewrite Hr in Hrne end. inversion Hrne; assumption.
+  - apply inv2_iter_error; [exact H2 | congruence].
+  - apply inv2_submit; [exact H2|].
+    match goal with Hc : chunks _ _ = _ |- _ => pose proof Hc as Hchunks end.
+    eapply chunks_nonempty. rewrite Hchunks. left. reflexivity.
+Qed.
+
+Lemma inv12_set_flags s i o ph : Inv12 s -> (rem_of s = [] \/ ph = phase s) ->
+  (match ph with Draining _ => ph = phase s | _ => True end) -> Inv12 (set_flags s i o ph).
+Proof. intros [H1 H2] A B. split; [revert H1; frame1 | apply inv2_set_flags; assumption]. Qed.
+
+Lemma inv12_end_start s : Inv12 s -> rem_of s = [] -> Inv12 (end_start s).
+Proof. intros H A. unfold end_start. apply inv12_set_flags; [exact H | left; exact A | exact I]. Qed.
+
+Lemma dispatch_shape_phase s b fo s' r : dispatch_shape s b fo s' r -> phase s' = phase s.
+Proof. intros H. inversion H; subst; reflexivity. Qed.
